@@ -340,13 +340,25 @@ func runCheck(prop, tier, cfgPath, evDir, knownPath, replayDir string, verbose b
 			obls = append(obls, &Obligation{Name: "contract-binds:" + e, Kind: "binds", Status: "undecided", Clause: e})
 		}
 	}
+	// a clause labelled "<name>#Cnn" belongs to property Cnn only: other properties that list the same function do not
+	// re-check it
+	{
+		var keep []*Obligation
+		for _, o := range obls {
+			if i := strings.LastIndex(o.Label, "#C"); i >= 0 && o.Label[i+1:] != prop {
+				continue
+			}
+			keep = append(keep, o)
+		}
+		obls = keep
+	}
 	// obligations that match a recorded known finding are expected to stay open: a short budget is enough to notice if
 	// one of them has become provable
 	for _, o := range obls {
 		for _, k := range known {
 			if k.Kind == "known" && k.Property == prop {
 				if ok, _ := regexp.MatchString(k.Obligation, o.Name); ok {
-					o.Budget = 10 * time.Second
+					o.Budget = 5 * time.Second
 				}
 			}
 		}
@@ -389,6 +401,8 @@ func runCheck(prop, tier, cfgPath, evDir, knownPath, replayDir string, verbose b
 	}
 	// known findings
 	var knownLines []string
+	knownSeen := map[string]bool{}
+	knownObls := map[string][]string{}
 	var violations []*Obligation
 	knownHit := 0
 	for _, o := range failing {
@@ -399,7 +413,12 @@ func runCheck(prop, tier, cfgPath, evDir, knownPath, replayDir string, verbose b
 			}
 			if ok, _ := regexp.MatchString(k.Obligation, o.Name); ok {
 				matched = true
-				knownLines = append(knownLines, fmt.Sprintf("KNOWN-FINDING: property=%s %s [%s]", prop, k.What, o.Name))
+				line := fmt.Sprintf("KNOWN-FINDING: property=%s %s", prop, k.What)
+				if !knownSeen[line] {
+					knownSeen[line] = true
+					knownLines = append(knownLines, line)
+				}
+				knownObls[line] = append(knownObls[line], o.Name)
 			}
 		}
 		if matched {
@@ -412,7 +431,7 @@ func runCheck(prop, tier, cfgPath, evDir, knownPath, replayDir string, verbose b
 	seenLine := map[string]bool{}
 	for _, l := range knownLines {
 		if !seenLine[l] {
-			fmt.Println(l)
+			fmt.Printf("%s [%d obligation(s): %s]\n", l, len(knownObls[l]), strings.Join(knownObls[l], ", "))
 			seenLine[l] = true
 		}
 	}
